@@ -140,34 +140,48 @@ theorem specEncrypt_eq (c : Crypto) (cd : Codec) (P : EncParams) (fk : Bytes) (m
         specPayload c P m.cph (payloadKey c P fk m.np) m.np 0 (segments P.segSize p) := by
   simp [specEncrypt, hdrBytes, headerMac, headerKey, headerMessage, payloadKey, List.append_assoc]
 
+/-- The base64 half of the codec laws. -/
+structure Codec.B64Lawful (cd : Codec) : Prop where
+  unb64_b64 : ∀ x, cd.unb64 (cd.b64 x) = some x
+  b64_line : ∀ x, x ≠ [] → cd.b64 x ≠ [] ∧ (10 : UInt8) ∉ cd.b64 x
+
+theorem Codec.LawfulFor.b64 {cd : Codec} {m : Manifest} (l : cd.LawfulFor m) : cd.B64Lawful := ⟨l.unb64_b64, l.b64_line⟩
+
+theorem header_wf_line (c : Crypto) (cd : Codec) (P : EncParams) (pwf : P.WF) (hmac : ∀ k msg, c.hmac k msg ≠ [])
+    (fk ml : Bytes) (hne : ml ≠ []) (hnl : (10 : UInt8) ∉ ml) (lb : cd.B64Lawful) :
+    HdrWF P.scheme ml (cd.b64 (headerMac c P fk ml)) :=
+  ⟨pwf.scheme_ne, pwf.scheme_nl, hne, hnl, (lb.b64_line _ (hmac _ _)).1, (lb.b64_line _ (hmac _ _)).2⟩
+
 theorem header_wf (c : Crypto) (cd : Codec) (P : EncParams) (pwf : P.WF) (hmac : ∀ k msg, c.hmac k msg ≠ [])
     (fk : Bytes) (m : Manifest) (lcd : cd.LawfulFor m) :
     HdrWF P.scheme (cd.render m) (cd.b64 (headerMac c P fk (cd.render m))) :=
-  ⟨pwf.scheme_ne, pwf.scheme_nl, lcd.render_line.1, lcd.render_line.2,
-    (lcd.b64_line _ (hmac _ _)).1, (lcd.b64_line _ (hmac _ _)).2⟩
+  header_wf_line c cd P pwf hmac fk _ lcd.render_line.1 lcd.render_line.2 lcd.b64
 
-/-- `Decrypt` on a non-failing source that starts with the honest header of `(fk, m)`: everything
-    up to the segment loop succeeds, whatever follows the header and however it is chunked. -/
-theorem decrypt_of_honest_header (b : Bool) (c : Crypto) (cd : Codec) (P : EncParams) (pwf : P.WF)
-    (hmac : ∀ k msg, c.hmac k msg ≠ []) (fk : Bytes) (hfk : fk.length = P.fkLen)
-    (m : Manifest) (lcd : cd.LawfulFor m) (hm : m.valid P = true) (o : DecryptOpts)
+/-- `Decrypt` on a non-failing source that starts with a header whose manifest line `ml` is **any**
+    line the parser reads as `m` (not necessarily the rendering of `m`) and whose MAC was computed over
+    `ml` itself under the key the run ends up using: everything up to the segment loop succeeds,
+    whatever follows and however it is chunked. `rf` selects the code before/after the bad-unwrap fix. -/
+theorem decrypt_of_header_line (b rf : Bool) (c : Crypto) (cd : Codec) (P : EncParams) (pwf : P.WF)
+    (hmac : ∀ k msg, c.hmac k msg ≠ []) (lb : cd.B64Lawful) (fk : Bytes)
+    (m : Manifest) (ml : Bytes) (hparse : cd.parse ml = some m) (hne : ml ≠ []) (hnl : (10 : UInt8) ∉ ml)
+    (hm : m.valid P = true) (o : DecryptOpts)
     (hkn : o.keyName ≠ [] ∨ m.keyName ≠ [])
-    (hunwrap : ∀ kn, o.unwrap m kn = fk)
+    (heff : ∀ kn, effKey rf P o m kn = fk) (hgood : ∀ kn, (rf && unwrapFailed rf P o m kn) = false)
     (payload : Bytes) (r : Reader) (heof : r.term = .eof)
-    (hhdr : (signHeader c cd P fk (cd.render m)).length ≤ P.hdrMax)
-    (hstream : r.stream = signHeader c cd P fk (cd.render m) ++ payload) :
+    (hhdr : (signHeader c cd P fk ml).length ≤ P.hdrMax)
+    (hstream : r.stream = signHeader c cd P fk ml ++ payload) :
     ∃ r', r'.stream = payload ∧ r'.term = .eof ∧
-      decryptWith b c cd P o r =
+      decryptWith b rf c cd P o r =
         ((processSegments (P.segSize + P.overhead) P.maxSeg
             (decryptSeg c P m.cph (payloadKey c P fk m.np) m.np) r').out,
          (processSegments (P.segSize + P.overhead) P.maxSeg
             (decryptSeg c P m.cph (payloadKey c P fk m.np) m.np) r').term) := by
   rw [signHeader_eq] at hhdr hstream
-  obtain ⟨r', hrh, hrs, hrt⟩ := readHeader_complete b P _ _ payload (header_wf c cd P pwf hmac fk m lcd) hhdr r heof hstream
+  obtain ⟨r', hrh, hrs, hrt⟩ := readHeader_complete b P _ _ payload (header_wf_line c cd P pwf hmac fk ml hne hnl lb) hhdr r heof hstream
   refine ⟨r', hrs, hrt, ?_⟩
   unfold decryptWith
   rw [hrh]
-  simp only [lcd.parse_render, hm, Bool.not_true, Bool.false_eq_true, if_false]
+  simp only [hparse, hm, Bool.not_true, Bool.false_eq_true, if_false]
   have hkey : (if o.keyName.isEmpty = true then m.keyName else o.keyName).isEmpty = false := by
     rcases hkn with h | h
     · have : o.keyName.isEmpty = false := by simpa using h
@@ -175,11 +189,47 @@ theorem decrypt_of_honest_header (b : Bool) (c : Crypto) (cd : Codec) (P : EncPa
     · by_cases ho : o.keyName.isEmpty = true
       · simp only [ho, if_true]; simpa using h
       · simp only [ho]; simpa using ho
-  simp only [hkey, Bool.false_eq_true, if_false, hunwrap, hfk, ne_eq, not_true_eq_false]
-  have hv : verifyHeader c cd P fk (cd.render m) (cd.b64 (headerMac c P fk (cd.render m))) = none := by
-    simp [verifyHeader, lcd.unb64_b64]
+  simp only [hkey, Bool.false_eq_true, if_false, heff, hgood]
+  have hv : verifyHeader c cd P fk ml (cd.b64 (headerMac c P fk ml)) = none := by
+    simp [verifyHeader, lb.unb64_b64]
   rw [hv]
 
+/-- An unwrap function that returns the 32-byte file key without error. -/
+theorem effKey_good (rf : Bool) (P : EncParams) (o : DecryptOpts) (m : Manifest) (fk : Bytes) (hfk : fk.length = P.fkLen)
+    (hunwrap : ∀ kn, o.unwrap m kn = fk) (hnf : ∀ kn, o.unwrapFails m kn = false) :
+    (∀ kn, effKey rf P o m kn = fk) ∧ (∀ kn, (rf && unwrapFailed rf P o m kn) = false) := by
+  have huf : ∀ kn, unwrapFailed rf P o m kn = false := by
+    intro kn; simp [unwrapFailed, hunwrap, hfk, hnf]
+  exact ⟨fun kn => by simp [effKey, huf, hunwrap], fun kn => by simp [huf]⟩
+
+/-- The special case of the manifest line `json.Marshal` produces. -/
+theorem decrypt_of_honest_header (b : Bool) (c : Crypto) (cd : Codec) (P : EncParams) (pwf : P.WF)
+    (hmac : ∀ k msg, c.hmac k msg ≠ []) (fk : Bytes) (hfk : fk.length = P.fkLen)
+    (m : Manifest) (lcd : cd.LawfulFor m) (hm : m.valid P = true) (o : DecryptOpts)
+    (hkn : o.keyName ≠ [] ∨ m.keyName ≠ [])
+    (hunwrap : ∀ kn, o.unwrap m kn = fk) (hnf : ∀ kn, o.unwrapFails m kn = false)
+    (payload : Bytes) (r : Reader) (heof : r.term = .eof)
+    (hhdr : (signHeader c cd P fk (cd.render m)).length ≤ P.hdrMax)
+    (hstream : r.stream = signHeader c cd P fk (cd.render m) ++ payload) :
+    ∃ r', r'.stream = payload ∧ r'.term = .eof ∧
+      decryptWith b true c cd P o r =
+        ((processSegments (P.segSize + P.overhead) P.maxSeg
+            (decryptSeg c P m.cph (payloadKey c P fk m.np) m.np) r').out,
+         (processSegments (P.segSize + P.overhead) P.maxSeg
+            (decryptSeg c P m.cph (payloadKey c P fk m.np) m.np) r').term) := by
+  obtain ⟨h1, h2⟩ := effKey_good true P o m fk hfk hunwrap hnf
+  exact decrypt_of_header_line b true c cd P pwf hmac lcd.b64 fk m _ lcd.parse_render lcd.render_line.1
+    lcd.render_line.2 hm o hkn h1 h2 payload r heof hhdr hstream
+
+
+/-- The document of an encoder that writes the manifest in its own way: any manifest line `ml`, the MAC
+    over `ml` itself, the payload as the specification says for the manifest `m` that `ml` denotes. -/
+def specEncryptLine (c : Crypto) (cd : Codec) (P : EncParams) (fk ml : Bytes) (m : Manifest) (p : Bytes) : Bytes :=
+  signHeader c cd P fk ml ++ specPayload c P m.cph (payloadKey c P fk m.np) m.np 0 (segments P.segSize p)
+
+theorem specEncrypt_eq_line (c : Crypto) (cd : Codec) (P : EncParams) (fk : Bytes) (m : Manifest) (p : Bytes) :
+    specEncrypt c cd P fk m p = specEncryptLine c cd P fk (cd.render m) m p := by
+  rw [specEncrypt_eq, specEncryptLine, signHeader_eq]
 
 /-! ### the README-only decoder -/
 
